@@ -147,7 +147,11 @@ def gen_obligations(table, specs, contract, cls, deadline=None):
     if not canary_ok:
         return ex, meta
     tolerated = set(contract.may_raise)
+    n_before = len(ex.obligs)
     for kind, pay, s1 in ex.run_function(fi, cls, args, st, 0):
+        for o_ in ex.obligs[n_before:]:
+            o_.info.setdefault('outcome', None)       # raised inside the body (call-site / loop obligations)
+        n_here = len(ex.obligs)
         meta['paths'] += 1
         ss = calls._spec_state(s1, args, entry)
         ss.path = s1.path
@@ -202,6 +206,9 @@ def gen_obligations(table, specs, contract, cls, deadline=None):
             else:
                 ex.oblige(f'{base}.no_{pay}', s1, z3.BoolVal(False), 'unexpected_exception',
                           {'clause': f'{pay} is not raised', 'props': list(contract.props)})
+        for o_ in ex.obligs[n_here:]:
+            o_.info['outcome'] = 'return' if kind == 'return' else str(pay)
+        n_before = len(ex.obligs)
     for o in ex.obligs:
         o.info.setdefault('props', list(contract.props))
     return ex, meta
